@@ -208,6 +208,18 @@ func (o *Origins) onlyStore(a *ssa.Alloc) ssa.Value {
 	return stored
 }
 
+// CellValue describes the content of a captured variable cell (the binding of a closure's free variable) when it is
+// assigned exactly once; nil otherwise.
+func (o *Origins) CellValue(cell ssa.Value) *Term {
+	if a, ok := cell.(*ssa.Alloc); ok {
+		if s := o.onlyStore(a); s != nil {
+			return o.Of(s)
+		}
+		return nil
+	}
+	return nil
+}
+
 // Of returns the origin term of v.
 func (o *Origins) Of(v ssa.Value) *Term {
 	if v == nil {
@@ -312,9 +324,11 @@ func (o *Origins) compute(v ssa.Value) *Term {
 		return &Term{Kind: k, Args: []*Term{o.Of(x.X), o.Of(x.Index)}}
 	case *ssa.Slice:
 		t := &Term{Kind: "slice", Args: []*Term{o.Of(x.X)}}
-		for _, b := range []ssa.Value{x.Low, x.High, x.Max} {
+		for i, b := range []ssa.Value{x.Low, x.High, x.Max} {
 			if b != nil {
 				t.Args = append(t.Args, o.Of(b))
+			} else if i == 0 {
+				t.Args = append(t.Args, &Term{Kind: "const", Name: "0"}) // x[:n] is x[0:n]
 			} else {
 				t.Args = append(t.Args, &Term{Kind: "const", Name: "-"})
 			}
@@ -370,6 +384,9 @@ func (o *Origins) load(u *ssa.UnOp) *Term {
 		if s := o.onlyStore(a); s != nil {
 			return o.Of(s)
 		}
+		if lit := o.structLit(a, u); lit != nil {
+			return lit
+		}
 		// several stores or captured: a distinct value per load
 		return &Term{Kind: "local", Name: a.Comment + "@" + u.Name()}
 	case *ssa.Global:
@@ -380,6 +397,58 @@ func (o *Origins) load(u *ssa.UnOp) *Term {
 		return &Term{Kind: "deref", Args: []*Term{o.Of(a)}}
 	}
 	return &Term{Kind: "deref", Args: []*Term{o.Of(u.X)}}
+}
+
+// structLit describes the load u of a local composite literal T{f: x, …} that is only built (one store per field, in
+// the block of the allocation) and then read as a whole: lit:T(x, …) with one argument per field (const:zero if unset).
+func (o *Origins) structLit(a *ssa.Alloc, u *ssa.UnOp) *Term {
+	if a.Comment != "complit" || a.Heap || a.Referrers() == nil {
+		return nil
+	}
+	st, ok := a.Type().Underlying().(*types.Pointer).Elem().Underlying().(*types.Struct)
+	if !ok {
+		return nil
+	}
+	vals := make([]ssa.Value, st.NumFields())
+	for _, r := range *a.Referrers() {
+		switch r := r.(type) {
+		case *ssa.UnOp, *ssa.DebugRef:
+		case *ssa.FieldAddr:
+			if r.Referrers() == nil || len(*r.Referrers()) != 1 {
+				return nil
+			}
+			s, isStore := (*r.Referrers())[0].(*ssa.Store)
+			if !isStore || s.Addr != ssa.Value(r) || s.Block() != a.Block() || vals[r.Field] != nil {
+				return nil
+			}
+			vals[r.Field] = s.Val
+		default:
+			return nil
+		}
+	}
+	t := &Term{Kind: "lit", Name: ShortType(a.Type().Underlying().(*types.Pointer).Elem()), Type: a.Type().Underlying().(*types.Pointer).Elem()}
+	for _, v := range vals {
+		if v == nil {
+			t.Args = append(t.Args, &Term{Kind: "const", Name: "zero"})
+		} else {
+			t.Args = append(t.Args, o.Of(v))
+		}
+	}
+	return t
+}
+
+// Project simplifies field:T.f(lit:T(…)) to the literal's value of that field.
+func Project(t *Term) *Term {
+	if t == nil || t.Kind != "field" || len(t.Args) != 1 || t.Args[0].Kind != "lit" || t.Args[0].Type == nil {
+		return t
+	}
+	lit := t.Args[0]
+	for i := range lit.Args {
+		if FieldName(lit.Type, i) == t.Name {
+			return lit.Args[i]
+		}
+	}
+	return t
 }
 
 // baseOf describes the object a field/index address is taken from: for a local Alloc this is the
@@ -461,6 +530,10 @@ func Subst(t *Term, m map[string]*Term) *Term {
 		seen[x] = n
 		for _, a := range x.Args {
 			n.Args = append(n.Args, rec(a, d+1))
+		}
+		if p := Project(n); p != n {
+			seen[x] = p
+			return p
 		}
 		return n
 	}
